@@ -342,6 +342,33 @@ def equality_laws(ctx, tz):
                     w = (DENSE if dense else SAMPLE)[k // 2]
                     ctx.violation('equal-zones-different-offsets', {'a': na, 'b': nb},
                                   'the zones compare equal but at wall time %s fold=%d report %r vs %r' % (w.isoformat(), k % 2, oa[k], ob[k]))
+    # tzlocal objects created under different process TZ settings (they snapshot their offsets), compared and probed
+    # under each of the settings in turn
+    from vf import tzmodels as TM
+    old = os.environ.get('TZ')
+    settings = ['EST5EDT,M3.2.0,M11.1.0', 'EST5', 'XST5XDT,M3.2.0,M11.1.0', 'EST5EDT4:30,M3.2.0,M11.1.0', 'CST6CDT,M3.2.0,M11.1.0', 'EST4EDT,M3.2.0,M11.1.0']
+    try:
+        locals_ = []
+        for s_ in settings:
+            TM.set_process_tz(s_)
+            locals_.append((s_, tz.tzlocal()))
+        for cur in settings[:3]:
+            TM.set_process_tz(cur)
+            for na, a in locals_:
+                for nb, b in locals_:
+                    ctx.ev()
+                    ctx.count('law_tzlocal_pairs')
+                    if (a == b) != (b == a):
+                        ctx.violation('equality-not-symmetric', {'a': 'tzlocal@' + na, 'b': 'tzlocal@' + nb}, 'asymmetric')
+                    if a == b and na != nb:
+                        ctx.count('tzlocal_pairs_called_equal')
+                    if a == b:
+                        oa, ob = [x[0] for x in behaviour(a)], [x[0] for x in behaviour(b)]
+                        if oa != ob:
+                            ctx.violation('equal-zones-different-offsets', {'a': 'tzlocal created under TZ=' + na, 'b': 'tzlocal created under TZ=' + nb, 'TZ': cur},
+                                          'the zones compare equal but report %r vs %r' % (oa[:4], ob[:4]))
+    finally:
+        TM.set_process_tz(old)
     for name, z in pool:
         ref = behaviour(z)
         forms = [('copy', copy.copy), ('deepcopy', copy.deepcopy)] + [('pickle-%d' % p, (lambda o, p=p: pickle.loads(pickle.dumps(o, p))))
